@@ -93,9 +93,8 @@ class Lit:
            "Definition EI {A} : res A := Err IndexError.\nDefinition EO {A} : res A := Err OtherError.\n"
            "Definition Cs (F : sig) (c : list targ) (p t : res binding) : both_case := (F, c, p, t).\n"
            "Definition Cp (F : sig) (c : list targ) (p : res binding) : pybind_case := (F, c, p).\n"
-           "Definition Cv (u : bool) (F : sig) (ps : list (option str * N)) (ex : list (str * N)) (r : res (list N * list (str * N))) "
-           ": validate_case := (u, F, ps, ex, r).\n"
-           "Definition VO (a : list N) (k : list (str * N)) : res (list N * list (str * N)) := Ok (a, k).\n")
+           "Definition Cv (u : bool) (F : sig) (ps : list (option str * N)) (ex : list (str * N)) (r : res binding) "
+           ": validate_case := (u, F, ps, ex, r).\n")
 
     def __init__(self):
         self.strs, self.sigs = {}, {}
@@ -147,11 +146,6 @@ class Lit:
             return ERRT.get(o[1], "EO")
         _, vals, va, kw = o
         return "(B %s %s %s)" % (self.kvs(vals), self.opt(va, lambda l: self.lst(["%d" % v for v in l])), self.opt(kw, self.kvs))
-
-    def vres(self, r):
-        if r[0] == "err":
-            return ERRT.get(r[1], "EO")
-        return "(VO %s %s)" % (self.lst(["%d" % v for v in r[1]]), self.kvs(r[2]))
 
     def header(self):
         h = self.HDR
@@ -507,9 +501,11 @@ def run_sig(chk, sig, calls, kind, terms, meta, idx):
 
 
 # ----------------------------------------------------------------------------------------------
-# (iii) validators called directly
+# (iii) each validation path called directly, followed by the real call of render() with what it returned
+#       (behaviour only: what a private validator returns is compared through the call it leads to)
 # ----------------------------------------------------------------------------------------------
-def run_validator(use_code, fn, vsig, params, extra, defaults=None):
+def run_validator(use_code, fn, vsig, params, extra, stub, stub_out, sig, defaults=None):
+    """fn/vsig: what is validated against.  stub: a probe with the same signature that is really called."""
     from django_components.util.template_tag import TagParam, _validate_params_with_code, validate_params
     tps = [TagParam(key=k, value=v) for k, v in params]
     try:
@@ -517,31 +513,39 @@ def run_validator(use_code, fn, vsig, params, extra, defaults=None):
             args, kwargs = _validate_params_with_code(fn, tps, dict(extra))
         else:
             args, kwargs = validate_params(None, vsig, "c11", tps, dict(extra))
+        if defaults is not None:     # built-in render(): its default objects -> the numbers the stub / model use
+            kwargs = {k: (defaults["__code__"][k] if k in defaults and v is defaults[k] else v) for k, v in kwargs.items()}
+        del stub_out[:]
+        stub(SELF_OBJ, CTX_OBJ, *args, **kwargs)
     except Exception as e:  # noqa
         return ("err", type(e).__name__)
-
-    def cv(k, v):
-        if defaults is not None and k in defaults and v is defaults[k]:
-            return defaults["__code__"][k]
-        return v if isinstance(v, int) and not isinstance(v, bool) else WEIRD
-    return ("ok", [cv(None, v) for v in args], [(k, cv(k, v)) for k, v in kwargs.items()])
+    return canon_locals(sig, stub_out[0], SELF_OBJ, CTX_OBJ)
 
 
-def validator_cases(chk, sig, fn, vsig, n, rng, terms, meta, kind, defaults=None):
+def validator_cases(chk, sig, fn, vsig, n, rng, terms, meta, kind, stub, stub_out, defaults=None):
     for _ in range(n):
         call = random_call(rng, sig, 5)
         es = entries_of(call)
+        if pos_after_kw(es):
+            es = [e for e in es if e[0] is None] + [e for e in es if e[0] is not None]
         params = [(k, v) for k, v in es if k is None or not is_special(k)]
         extra = []
         for k, v in es:
             if k is not None and is_special(k) and k not in dict(extra):
                 extra.append((k, v))
+        equiv_call = [["pos", v] if k is None else ["kw", k, v] for k, v in params] + [["kw", k, v] for k, v in extra]
+        py = run_python(stub, stub_out, sig, equiv_call)
         for use_code in (True, False):
-            r = run_validator(use_code, fn, vsig, params, extra, defaults)
-            chk.count(("v", use_code, sig_src(sig), repr(params), repr(extra)), bool(extra) or len(set(k for k, _ in params)) < len(params), kind=kind)
+            r = run_validator(use_code, fn, vsig, params, extra, stub, stub_out, sig, defaults)
+            chk.count(("v", use_code, sig_src(sig), repr(params), repr(extra)), nontrivial(sig, equiv_call, py), kind=kind)
+            why = oracle(sig, equiv_call, py, r)
+            if why:
+                chk.fail(classify(sig, equiv_call), why + " (%s path + call)" % ("fast" if use_code else "fallback"),
+                         {"kind": "validator", "use_code": use_code, "sig": sig, "params": params, "extra": extra,
+                          "render": sig_src(sig).split("\n")[0], "python": py, "validated_call": r})
             terms.append("Cv %s %s %s %s %s" % (C.cbool(use_code), LIT.sig(sig),
                                                 LIT.lst(["KO %s %d" % (LIT.opt(k, LIT.s), v) for k, v in params]),
-                                                LIT.kvs(extra), LIT.vres(r)))
+                                                LIT.kvs(extra), LIT.obs(r)))
             meta.append((use_code, sig, params, extra, r))
 
 
@@ -609,7 +613,7 @@ def run(tier, seed):
         fn = make_fn(sig, out)
         vsig = inspect.signature(fn)
         vsig = vsig.replace(parameters=list(vsig.parameters.values())[2:])
-        validator_cases(chk, sig, fn, vsig, 40 if thorough else 6, rng, vterms, vmeta, "validators")
+        validator_cases(chk, sig, fn, vsig, 40 if thorough else 6, rng, vterms, vmeta, "validators", fn, out)
     for cls in builtin_nodes():
         fn = getattr(cls.render, "__wrapped__", None)
         if fn is None:
@@ -617,11 +621,14 @@ def run(tier, seed):
         sig, dflt = sig_from_function(fn)
         dflt = dict(dflt)
         dflt["__code__"] = {n: d for n, d in sig["po"] + sig["pk"] + sig["ko"] if d is not None}
-        validator_cases(chk, sig, fn, cls._signature, 400 if thorough else 120, rng, vterms, vmeta, "validators-builtin-" + cls.tag, defaults=dflt)
+        out = []
+        stub = make_fn(sig, out)
+        validator_cases(chk, sig, fn, cls._signature, 400 if thorough else 120, rng, vterms, vmeta, "validators-builtin-" + cls.tag,
+                        stub, out, defaults=dflt)
     bad = C.coq_eval_cases("C11", "val", IMPORTS, "validate_case", CHECK_VALIDATE, vterms, shard=4000, extra_defs=LIT.header())
     for i in bad[:20]:
         use_code, sig, params, extra, r = vmeta[i]
-        chk.disagree("validator model != %s" % ("_validate_params_with_code" if use_code else "_validate_params_with_signature"),
+        chk.disagree("model != %s followed by the call of render()" % ("_validate_params_with_code" if use_code else "_validate_params_with_signature"),
                      {"kind": "validator", "use_code": use_code, "sig": sig, "params": params, "extra": extra, "impl": r})
 
     chk.assumptions = [
